@@ -1428,3 +1428,128 @@ Lemma lua_subset_witness :
   parse_cmd parts = POk (Cmd "GetRange" [VS (tx "j"); VI 2; VI (-1)])
   /\ lua_parse parts = PErr (tx "ERR Unknown Redis command 'SUBSTR' called from Lua").
 Proof. split; vm_compute; reflexivity. Qed.
+
+(* ------------------------------------------------------------------ letter case, any bytes *)
+Lemma up1_cases x : (up1 x = x /\ ~ (97 <= x <= 122)%N) \/ ((97 <= x <= 122)%N /\ up1 x = (x - 32)%N).
+Proof.
+  unfold up1. destruct (N.leb_spec 97 x); destruct (N.leb_spec x 122); cbn [andb]; try (left; split; [reflexivity|lia]).
+  right. split; [lia|reflexivity].
+Qed.
+Lemma width_up1 x : width (up1 x) = width x.
+Proof.
+  destruct (up1_cases x) as [[-> _]|[H ->]]; [reflexivity|].
+  unfold width. destruct (N.ltb_spec (x - 32) 128); [|lia]. destruct (N.ltb_spec x 128); [reflexivity|lia].
+Qed.
+Lemma cont_up1 x : cont (up1 x) = cont x.
+Proof.
+  destruct (up1_cases x) as [[-> _]|[H ->]]; [reflexivity|].
+  unfold cont. destruct (N.leb_spec 128 (x - 32)); [lia|]. destruct (N.leb_spec 128 x); [lia|reflexivity].
+Qed.
+Lemma width_big x : width x <> 1%nat -> up1 x = x.
+Proof.
+  intros H. destruct (up1_cases x) as [[E _]|[R _]]; [exact E|].
+  exfalso. apply H. unfold width. destruct (N.ltb_spec x 128); [reflexivity|lia].
+Qed.
+Lemma second_ok_up1 x c : second_ok x (up1 c) = second_ok x c.
+Proof.
+  destruct (up1_cases c) as [[-> _]|[H ->]]; [reflexivity|].
+  assert (A1 : forall k, (128 <= k)%N -> (k <=? c)%N = false) by (intros; apply N.leb_gt; lia).
+  assert (A2 : forall k, (128 <= k)%N -> (k <=? c - 32)%N = false) by (intros; apply N.leb_gt; lia).
+  unfold second_ok, cont. rewrite !A1, !A2 by lia. reflexivity.
+Qed.
+Lemma map_up1_fffd : map up1 FFFD = FFFD.
+Proof. reflexivity. Qed.
+
+Lemma lossy_up1 n : forall b, (List.length b <= n)%nat -> lossy (map up1 b) = map up1 (lossy b).
+Proof.
+  induction n as [|n IH]; intros [|x r] H; try reflexivity; cbn [List.length] in H; [lia|].
+  cbn [map lossy]. rewrite width_up1.
+  destruct (width x) as [|[|[|[|[|w]]]]] eqn:W.
+  - rewrite map_app, map_up1_fffd, IH by lia. rewrite ?Ex; reflexivity.
+  - cbn [map]. rewrite IH by lia. rewrite ?Ex; reflexivity.
+  - assert (Ex : up1 x = x) by (apply width_big; rewrite W; discriminate).
+    destruct r as [|c1 r1]; [reflexivity|]. rewrite ?Ex. cbn [map]. rewrite cont_up1.
+    destruct (cont c1).
+    + cbn [map]. rewrite IH by (cbn [List.length] in H; lia). rewrite ?Ex; reflexivity.
+    + rewrite map_app, map_up1_fffd. change (up1 c1 :: map up1 r1) with (map up1 (c1 :: r1)).
+      rewrite IH by lia. rewrite ?Ex; reflexivity.
+  - assert (Ex : up1 x = x) by (apply width_big; rewrite W; discriminate).
+    destruct r as [|c1 r1]; [reflexivity|]. rewrite ?Ex. cbn [map]. rewrite ?Ex, second_ok_up1.
+    destruct (second_ok x c1).
+    + destruct r1 as [|c2 r2]; [reflexivity|]. cbn [map]. rewrite cont_up1.
+      destruct (cont c2).
+      * cbn [map]. rewrite IH by (cbn [List.length] in H; lia). rewrite ?Ex; reflexivity.
+      * rewrite map_app, map_up1_fffd. change (up1 c2 :: map up1 r2) with (map up1 (c2 :: r2)).
+        rewrite IH by (cbn [List.length] in *; lia). rewrite ?Ex; reflexivity.
+    + rewrite map_app, map_up1_fffd. change (up1 c1 :: map up1 r1) with (map up1 (c1 :: r1)).
+      rewrite IH by lia. rewrite ?Ex; reflexivity.
+  - assert (Ex : up1 x = x) by (apply width_big; rewrite W; discriminate).
+    destruct r as [|c1 r1]; [reflexivity|]. rewrite ?Ex. cbn [map]. rewrite ?Ex, second_ok_up1.
+    destruct (second_ok x c1).
+    + destruct r1 as [|c2 r2]; [reflexivity|]. cbn [map]. rewrite cont_up1.
+      destruct (cont c2).
+      * destruct r2 as [|c3 r3]; [reflexivity|]. cbn [map]. rewrite cont_up1.
+        destruct (cont c3).
+        -- cbn [map]. rewrite IH by (cbn [List.length] in H; lia). rewrite ?Ex; reflexivity.
+        -- rewrite map_app, map_up1_fffd. change (up1 c3 :: map up1 r3) with (map up1 (c3 :: r3)).
+           rewrite IH by (cbn [List.length] in *; lia). rewrite ?Ex; reflexivity.
+      * rewrite map_app, map_up1_fffd. change (up1 c2 :: map up1 r2) with (map up1 (c2 :: r2)).
+        rewrite IH by (cbn [List.length] in *; lia). rewrite ?Ex; reflexivity.
+    + rewrite map_app, map_up1_fffd. change (up1 c1 :: map up1 r1) with (map up1 (c1 :: r1)).
+      rewrite IH by lia. rewrite ?Ex; reflexivity.
+  - rewrite map_app, map_up1_fffd, IH by lia. rewrite ?Ex; reflexivity.
+Qed.
+
+(* upper absorbs up1 *)
+Lemma up1_idem x : up1 (up1 x) = up1 x.
+Proof.
+  destruct (up1_cases x) as [[E _]|[H ->]]; [now rewrite !E|].
+  unfold up1. destruct (N.leb_spec 97 (x - 32)); [lia|reflexivity].
+Qed.
+Lemma up1_eqb_big x v : (128 <= v)%N -> (up1 x =? v)%N = (x =? v)%N.
+Proof.
+  intros Hv. destruct (up1_cases x) as [[-> _]|[H ->]]; [reflexivity|].
+  destruct (N.eqb_spec (x - 32) v); destruct (N.eqb_spec x v); try reflexivity; lia.
+Qed.
+Lemma upper_unfold x y r1 :
+  upper (x :: y :: r1) =
+    if ((x =? 195) && (y =? 159))%N then 83%N :: 83%N :: upper r1
+    else if ((x =? 196) && (y =? 177))%N then 73%N :: upper r1
+    else if ((x =? 197) && (y =? 191))%N then 83%N :: upper r1
+    else if ((x =? 239) && (y =? 172))%N then
+      match r1 with
+      | c :: r2 => match lig c with Some w => w ++ upper r2 | None => up1 x :: upper (y :: r1) end
+      | [] => up1 x :: upper (y :: r1)
+      end
+    else up1 x :: upper (y :: r1).
+Proof. reflexivity. Qed.
+Lemma upper_up1 n : forall b, (List.length b <= n)%nat -> upper (map up1 b) = upper b.
+Proof.
+  induction n as [|n IH]; intros [|x r] H; try reflexivity; cbn [List.length] in H; [lia|].
+  destruct r as [|y r1]; [cbn; now rewrite up1_idem|].
+  assert (IH1 : upper (map up1 r1) = upper r1) by (apply IH; cbn [List.length] in H; lia).
+  assert (IH2 : upper (map up1 (y :: r1)) = upper (y :: r1)) by (apply IH; lia).
+  cbn [map] in *. rewrite !upper_unfold, !up1_eqb_big, up1_idem, IH1, IH2 by lia.
+  destruct r1 as [|c r2]; [reflexivity|].
+  assert (IH3 : upper (map up1 r2) = upper r2) by (apply IH; cbn [List.length] in H; lia).
+  cbn [map].
+  assert (HL : lig (up1 c) = lig c) by (unfold lig; rewrite !up1_eqb_big by lia; reflexivity).
+  rewrite HL, IH3. reflexivity.
+Qed.
+Lemma ustr_up1 b : ustr (map up1 b) = ustr b.
+Proof.
+  unfold ustr. rewrite (lossy_up1 _ b (le_n _)). apply (upper_up1 _ _ (le_n _)).
+Qed.
+Theorem name_case_insensitive_any n n' args :
+  case_variant n n' ->
+  parse_frame (Some (EBulk n :: args)) = parse_frame (Some (EBulk n' :: args)).
+Proof.
+  intros H. apply name_only_through_ustr.
+  rewrite <- (ustr_up1 n), <- (ustr_up1 n'). now rewrite (case_variant_map _ _ H).
+Qed.
+Lemma case_variant_ustr a b : case_variant a b -> ustr a = ustr b.
+Proof. intros H. rewrite <- (ustr_up1 a), <- (ustr_up1 b). now rewrite (case_variant_map _ _ H). Qed.
+Theorem parse_unparse_any_case (k : bytes -> bytes) :
+  (forall w, case_variant w (k w)) ->
+  forall c, canonical c = true -> exists ps, unparse_k k c = Some ps /\ parse_cmd ps = POk c.
+Proof. intros H. apply parse_unparse_k. intros w. symmetry. apply case_variant_ustr, H. Qed.
